@@ -9,7 +9,9 @@ C15_ranking_sorted C15_default_key C15_efficiency_values C15_efficiency_forced_c
 C15_by_cpuset_exact C15_register_algebra C15_internal_register_refines C15_regG_overwrite C15_refinement
 C15_restrict_refines C15_partition_from_refinement C15_infos_from_refinement C15_forced_from_history
 C15_efficiency_order_by_cells C15_finding_split_drops_forced
-C15_kinds_are_classes C15_internal_register_classes C15_unranked_keeps_order""".split()]
+C15_kinds_are_classes C15_internal_register_classes C15_unranked_keeps_order
+C15_restrict_cuts_by_root C15_restrict_covers C15_restrict_independent_of_allowed C15_allow_keeps_kinds
+C15_allowed_within_root C15_allow_history_reduces C15_kinds_partition_disallowed""".split()]
 CHECK_MODULES = ["Hw.Props.C15"]
 TRUSTED = ["hwloc_bitmap_compare_inclusion / and / andnot / iszero enter the model through their set-level meaning on finite "
            "sets (Nat masks); the bitmap layer itself is C03",
@@ -17,7 +19,9 @@ TRUSTED = ["hwloc_bitmap_compare_inclusion / and / andnot / iszero enter the mod
            "modelled as insertion sort (only reached with pairwise distinct ranking values; C15_sort_algorithm_irrelevant proves that "
            "every correct sort then returns the same array)",
            "hwloc_topology_restrict / dup / XML export+import enter the model only through what they do to the cpukinds "
-           "array and the root cpuset (root := root & set, EINVAL when empty)"]
+           "array, the root cpuset and the allowed cpuset (root := root & set, allowed := allowed & set, EINVAL when the set "
+           "misses the ALLOWED cpuset; hwloc_topology_allow: allowed := root [& set]); the INCLUDE_DISALLOWED flag is re-set on "
+           "the importing topology of the XML round trip"]
 ASSUMPTIONS = ["finite cpusets; fewer than 2^30 kinds (no wrap in 1U<<bits); malloc/realloc never fail; strings in info values "
                "convert within the range of long",
                "correspondence C = model is claimed outside the stale-slot defect class F17 (a register creating a kind in an "
@@ -25,7 +29,9 @@ ASSUMPTIONS = ["finite cpusets; fewer than 2^30 kinds (no wrap in 1U<<bits); mal
                "harness unless VERIF_C15_INCLUDE_STALE_SLOT_DEFECT=1"]
 MODELLED = ("modelled: all of hwloc/cpukinds.c except allocation failure paths (register incl. capacity, split/merge loop, info "
             "union, forced-efficiency rule; every ranking strategy of HWLOC_CPUKINDS_RANKING; restrict; dup; get_nr/get_info/"
-            "get_by_cpuset), the cpukind part of XML export/import as re-registration; hwloc_internal_cpukinds_register is also "
+            "get_by_cpuset), the cpukind part of XML export/import as re-registration; topologies loaded with INCLUDE_DISALLOWED and "
+            "hwloc_topology_allow (CUSTOM / ALL / invalid) interleaved with everything else (Hw.Attr.CpuKindsAllowed: kinds never "
+            "depend on the allowed cpuset, restrict cuts them by the new root cpuset); hwloc_internal_cpukinds_register is also "
             "driven directly (flags 0 / OVERWRITE / invalid) in `+ireg` side streams, outside the candidate-finding class "
             "'flags-0 split of a kind with a known, different forced efficiency' (corpus/cpukinds.findings/, evidence key "
             "candidate_findings, never a verdict); exercised but not modelled: the topology "
